@@ -52,6 +52,8 @@ def ka_histories(rng, n):
                 op['worker_lifespan'] = lifespan
             if pool['start_method'] == 'fork' and rng.random() < .3:
                 op['worker_exit_timeout'] = 60.0        # a timeout that never fires must not change what the exit function returns
+            if pool['start_method'] == 'fork' and rng.random() < .3:
+                op['worker_init_timeout'] = 60.0        # … nor how often worker_init runs
             ops.append(op)
             if k < 3 and rng.random() < .25:
                 # a setter that really changes a pool parameter: the kept workers are retired (with their worker_exit) at the next call
@@ -109,6 +111,8 @@ def run(chk):
                 op['exit'] = True
                 if sc['pool']['start_method'] == 'fork' and rng.random() < .3:
                     op['worker_exit_timeout'] = 60.0
+            if op.get('init') and sc['pool']['start_method'] == 'fork' and rng.random() < .3:
+                op['worker_init_timeout'] = 60.0
         sc['all_valid'] = False
         sc['pool'].pop('keep_alive', None)
         scs.append(sc)
